@@ -22,6 +22,11 @@ Definition bd_of (l : list (list Z * act)) : body :=
            | None => ASkip
            end.
 
+(* is there a getPayloadRef action at or below the path p? *)
+Definition is_ref (a : act) : bool := match a with ARefBelow _ _ => true | _ => false end.
+Definition rb_of (l : list (list Z * act)) : list Z -> bool :=
+  fun p => existsb (fun pa => is_ref (snd pa) && is_prefix p (fst pa)) l.
+
 Definition k_sp (c : c05_case) : srcp :=
   {| sp_d := k_da c; sp_U := k_U c; sp_shape := k_shape c |}.
 
@@ -170,6 +175,7 @@ Fixpoint wr_at (k : nat) (n : nat) (sp : srcp) (bd : body) (lvl : nat) (path : l
       then match q', bd (path ++ [c]) with [], AWrite w => w | _, _ => WNone end
       else match bd (path ++ [c]) with
            | ADescend => wr_at k' n sp bd (S lvl) (path ++ [c]) (sub_of bp) q'
+           | ARefBelow pt w => if path_eqb q' pt then w else WNone
            | _ => WNone
            end
     | None => WNone
@@ -183,7 +189,8 @@ Fixpoint wr_at (k : nat) (n : nat) (sp : srcp) (bd : body) (lvl : nat) (path : l
    - an offered interior element the body left alone is the same;
    - an offered coordinate that was absent before is absent after unless something non-default
      is now stored under it. *)
-Fixpoint raw_ok (k : nat) (n : nat) (dz : Z) (sp : srcp) (bd : body) (lvl : nat) (path : list Z)
+Fixpoint raw_ok (k : nat) (n : nat) (dz : Z) (sp : srcp) (bd : body) (rb : list Z -> bool) (lvl : nat)
+         (path : list Z)
          (aes : fib) (zb za : fib) : bool :=
   match k with
   | O => true
@@ -197,16 +204,40 @@ Fixpoint raw_ok (k : nat) (n : nat) (dz : Z) (sp : srcp) (bd : body) (lvl : nat)
          let p := path ++ [c] in
          let leaf := Nat.eqb (S lvl) n in
          let desc := match bd p with ADescend => negb leaf | _ => false end in
+         let refb := is_ref (bd p) && negb leaf in
          match lookup c zb, lookup c za with
          | None, None => true
          | None, Some ta =>
-           negb (is_empty dz ta)
-           && (if desc then raw_ok k' n dz sp bd (S lvl) p (sub_of (snd cb)) [] (sub_of ta) else leaf)
-         | Some tb, None => true
+           (* what getPayloadRef below an offered reference created is the body's own: where the
+              body did that (rb) an all-default element may stay *)
+           (rb p || negb (is_empty dz ta))
+           && (if desc then raw_ok k' n dz sp bd rb (S lvl) p (sub_of (snd cb)) [] (sub_of ta)
+               else leaf || refb)
+         | Some tb, None =>
+           (* an element that was there and is gone: a leaf the body left at the default, or a
+              sub-fiber in which nothing outside a was lost *)
+           if desc then raw_ok k' n dz sp bd rb (S lvl) p (sub_of (snd cb)) (sub_of tb) [] else leaf
          | Some tb, Some ta =>
-           if desc then raw_ok k' n dz sp bd (S lvl) p (sub_of (snd cb)) (sub_of tb) (sub_of ta)
-           else leaf || tree_eqb tb ta
+           if desc then raw_ok k' n dz sp bd rb (S lvl) p (sub_of (snd cb)) (sub_of tb) (sub_of ta)
+           else leaf || refb || tree_eqb tb ta
          end) off
+  end.
+
+(* the fibers the nest iterates over: [iter_at ... pth] is a's fiber at the relative path pth if
+   every coordinate of pth is presented by a at its level and the body runs the nested loop there *)
+Fixpoint iter_at (k : nat) (n : nat) (sp : srcp) (bd : body) (lvl : nat) (path : list Z) (aes : fib)
+         (pth : list Z) : option fib :=
+  match k with
+  | O => None
+  | S k' =>
+    match pth with
+    | [] => Some aes
+    | c :: pth' =>
+      match lookup c (a_presents n sp lvl aes), bd (path ++ [c]), Nat.eqb (S lvl) n with
+      | Some bp, ADescend, false => iter_at k' n sp bd (S lvl) (path ++ [c]) (sub_of bp) pth'
+      | _, _, _ => None
+      end
+    end
   end.
 
 (* all full points at which z before, z after or the nest have something to say *)
@@ -240,7 +271,7 @@ Definition c05_result_ok (c : c05_case) (o : oobs) : bool :=
           (probe_points (k_dz c) (k_z c) (o_tree (oo_z1 o)) (oo_evs o)).
 
 Definition c05_raw_ok (c : c05_case) (o : oobs) : bool :=
-  raw_ok (k_n c) (k_n c) (k_dz c) (k_sp c) (bd_of (k_body c)) O [] (sub_of (k_a c))
+  raw_ok (k_n c) (k_n c) (k_dz c) (k_sp c) (bd_of (k_body c)) (rb_of (k_body c)) O [] (sub_of (k_a c))
          (sub_of (k_z c)) (sub_of (o_tree (oo_z1 o))).
 
 (* the populated fiber of z has taken a's active range: (0, shape of a's rank) *)
